@@ -97,10 +97,14 @@ type fetchRange struct {
 // taking configuration options from opts.
 func NewFetcher(client LogClient, opts *FetcherOptions) *Fetcher {
 	cancel := func() {} // Protect against calling Stop before Run.
+	// Work on a private copy of the options: Prepare and updateSTH adjust
+	// EndIndex, and that must not leak into other Fetchers that the caller
+	// builds from the same options value.
+	o := *opts
 	return &Fetcher{
 		uri:    client.BaseURI(),
 		client: client,
-		opts:   opts,
+		opts:   &o,
 		cancel: cancel,
 	}
 }
